@@ -37,6 +37,12 @@ for n in (1, 2, 3, 4):
 quick += reg(5, MEDIAN, secs=120, jobs=4)
 quick += reg(3, MEDIAN, cols=2) + reg(3, MEDIAN, recv=DS_RECV) + reg(3, MEDIAN, recv=DS_ARG)
 thorough += reg(6, MEDIAN, secs=900, jobs=16) + reg(4, MEDIAN, cols=2, secs=900, jobs=16)
+# long vectors, two symbolic rows among fixed ones (code paths selected by the length, e.g. inside sorting)
+for n in (17, 18, 24, 33):
+    quick += reg(n, MEDIAN, sym=2, secs=90)
+for m in (MAX, MAE, MSE, MAPE):
+    quick += reg(20, m, sym=2, secs=60)
+thorough += reg(40, MEDIAN, sym=3, secs=600, jobs=4) + reg(65, MEDIAN, sym=2, secs=300)
 for m in (R2, EV):
     for n in (2, 3, 4):
         quick += reg(n, m)
